@@ -190,7 +190,7 @@ def check_metric(prog, rep, m, c):
         for n in g.own_nodes():
             if isinstance(n, ast.Call):
                 t = prog.resolve_callable(g, g.module, n.func)
-                if isinstance(t, Func) and t.module is m and t not in seen:
+                if isinstance(t, Func) and prog.same_unit(m, t.module) and t not in seen:
                     todo.append(t)
     for g in sorted(seen, key=lambda g_: g_.node.lineno):
         if g is c.kernel or len(g.params) != 4 or g.jit is None or any(isinstance(x, (ast.For, ast.While, ast.Subscript)) for x in g.own_nodes()):
@@ -652,7 +652,7 @@ def _single_atom_sym(r):
 def check_search(prog, rep, m, c):
     f = c.kernel
     # phases of a split kernel (functions that allocate the bookkeeping arrays and hand them back) run in place
-    k = interpret(prog, f, strict=False, inline_all=lambda g: g.jit is not None and g.module is m and g is not c.recon_func and _allocates(g))
+    k = interpret(prog, f, strict=False, inline_all=lambda g: g.jit is not None and prog.same_unit(m, g.module) and g is not c.recon_func and _allocates(g))
     inl = getattr(k, 'inlined', [])
     wl = [L for L in k.loops if L.kind == 'while']
     if len(wl) != 1:
@@ -971,9 +971,16 @@ def check_search(prog, rep, m, c):
     xs = [_single_atom(r[3]) for r in inl if r[0] is c.cross_func and isinstance(r[3], Rat) and _single_atom(r[3]) is not None
           and r[1] and isinstance(r[1][0], Rat) and _single_atom(r[1][0]) is not None and _single_atom(r[1][0]).name in ('read', 'cell?')
           and tuple(_single_atom(r[1][0]).args[1:3]) == (SY, SX) and _single_atom(r[1][0]).args[0] == c.data]
+    GY, GX = Rat.sym(c.goal_params[0]), Rat.sym(c.goal_params[1])
+    xg = [_single_atom(r[3]) for r in inl if r[0] is c.cross_func and isinstance(r[3], Rat) and _single_atom(r[3]) is not None
+          and r[1] and isinstance(r[1][0], Rat) and _single_atom(r[1][0]) is not None and _single_atom(r[1][0]).name in ('read', 'cell?')
+          and tuple(_single_atom(r[1][0]).args[1:3]) == (GY, GX) and _single_atom(r[1][0]).args[0] == c.data]
     if oko0:
         try:
-            oko0 = bool(xs) and _all(o0[0].guards, {xs[0]: F(0)}) and not _all(o0[0].guards, {xs[0]: F(1)})
+            # the goal's own crossability may join the test: a goal that cannot be entered is never relaxed (relaxation rule
+            # above), hence never popped, so the result is all NaN whether or not the start is opened
+            ge = [{xg[0]: F(0)}, {xg[0]: F(1)}] if xg else [{}]
+            oko0 = bool(xs) and _all(o0[0].guards, {xs[0]: F(0), **ge[0]}) and not any(_all(o0[0].guards, {xs[0]: F(1), **e_}) for e_ in ge)
         except CannotEvaluate:
             oko0 = None
     rep.add('A5', f, ENTRY, 'start enters the open list exactly when it is crossable', f.node.lineno, oko0,
